@@ -86,6 +86,43 @@ CHECKS["C13"] = dict(
    technique="Coq refinement proof (process/sched vs run_core) + schedule-differential on the implementation + trace replay",
    ref="§5 C13")
 
+ASM_NOTE = ("Trusted: Coq kernel; hand-written assembler/combiner model tied to the code by differential execution of the real Assembler "
+            "(hook) and the extracted model on burst-arrival histories with idle polled at every symbol, by replaying the Coq witness "
+            "histories on the implementation, and at receiver level by tick-trace replay of real audio runs; Python scenario generators "
+            "and oracles written from the property text. No axioms. Timing premises of the scenario theorems (polling stops before the "
+            "hold of the previous burst runs out; bursts inside the 10.86 s history window) are protocol facts validated on audio runs, not proved.")
+CHECKS["C02"] = dict(
+   text="Machine-checked scenario proofs over the assembler model with ALL contents and ALL times symbolic: two intact copies of any "
+        "canonical header plus one arbitrary burst (any bytes, any length) in any of the three positions, or one burst lost, give exactly "
+        "one StartOfMessage with text H and the C03 counters, released by the first idle poll 682 symbols after the last burst; any single "
+        "burst with any polling never gives a StartOfMessage; 1..3 bursts starting NN combine to EndOfMessage and a three-burst trailer on a "
+        "quiet channel yields exactly one message, at the first burst (fast EOM). The full statement is refuted on the faithful model for two "
+        "histories (F2, F8: witness lemmas, replayed on the implementation) which are known findings. Partial: trailer-after-header "
+        "interleavings and junk after the header are covered by the abstract-combine form of the theorem plus correspondence, not by a closed theorem.",
+   note=ASM_NOTE,
+   technique="Coq scenario proofs (symbolic times/contents, macro-step lemmas) + refuted-witness lemmas + assembler/receiver differential correspondence",
+   ref="§5 C02, §11")
+CHECKS["C05"] = dict(
+   text="Machine-checked invariant proof for EVERY history of burst arrivals and idle polls with a monotone clock: two consecutive reports "
+        "with equal text are at least MAX_HISTORY_DURATION (5652 symbols, 10.86 s) apart (duplicate suppression inside the window), from "
+        "the initial state and from any state satisfying the invariant; scenario proofs that the same header is reported again once the "
+        "window has passed and that a trailer is reported exactly once. 'In order, including transmissions one second apart' is refuted on "
+        "the faithful model (F1 witness lemma, replayed on the implementation; also F8) and listed as known findings; order for "
+        "transmissions further apart is checked by the scenario oracle on histories, not by a closed theorem.",
+   note=ASM_NOTE,
+   technique="Coq invariant proof (induction over operation histories) + scenario proofs + refuted-witness lemmas + differential correspondence",
+   ref="§5 C05, §11")
+CHECKS["C08"] = dict(
+   text="Machine-checked proof in symbol time: an EndOfMessage established by a burst is returned by the assemble call that delivers it "
+        "(unless a StartOfMessage is held: F2); for EVERY history the pending slot never keeps an EndOfMessage between calls and whatever "
+        "it holds is due at most 682 symbols after the last burst, and the first idle poll at or after that instant returns it (never held "
+        "indefinitely once bursts stop); idle polls report the held result exactly once at the first poll past its deadline. Partial: the "
+        "sample-time bound (about 1.5 s at every rate = symbol bound x tick period + burst-termination latency) is DSP behaviour, measured "
+        "on every audio case and bounded by the oracle, not proved. F3 (repeats extend the hold) is a refuted-witness lemma / known finding.",
+   note=ASM_NOTE,
+   technique="Coq invariant + step proofs over operation histories + refuted-witness lemmas + latency measurement on real audio runs",
+   ref="§5 C08, §11")
+
 NOT_APPLICABLE = {}
 
 def main():
